@@ -334,3 +334,15 @@ pub fn exchange(inp: &Value) -> R<Value> {
 fn serialize_into_pub<const N: usize>(resp: &ctap2::Response, stale: &[u8]) -> Vec<u8> {
     crate::ops::serialize_into::<N>(resp, stale)
 }
+
+
+/// an authenticator that keeps the DEFAULT `version()` of the trait (the recording mocks override it)
+pub struct FullAuthProbe;
+impl ctap1::Authenticator for FullAuthProbe {
+    fn register(&mut self, _r: &ctap1::register::Request<'_>) -> ctap1::Result<ctap1::register::Response> {
+        Err(ctap1::Error::from(0x6985u16))
+    }
+    fn authenticate(&mut self, _r: &ctap1::authenticate::Request<'_>) -> ctap1::Result<ctap1::authenticate::Response> {
+        Err(ctap1::Error::from(0x6985u16))
+    }
+}
